@@ -19,3 +19,10 @@ import FpgoVerif.Props.C02
 #print axioms FpgoVerif.C02.C02_float_to_uintptr
 #print axioms FpgoVerif.C02.C02_table_string_to_int
 #print axioms FpgoVerif.C02.C02_string_to_int
+#print axioms FpgoVerif.C02.C02_table_float_to_float
+#print axioms FpgoVerif.C02.C02_float_to_float
+#print axioms FpgoVerif.C02.C02_table_string_to_float
+#print axioms FpgoVerif.C02.C02_string_to_float64
+#print axioms FpgoVerif.C02.C02_string_to_float32
+#print axioms FpgoVerif.C02.C02_string_to_bool
+#print axioms FpgoVerif.C02.C02_table_complete
